@@ -26,8 +26,8 @@ open Wire Pen PenShow Red
       → err ValueError | err KeyError | err ValueError:dup
     hist <SPIN|BINARY> <terms> <ops: op!op!… | ->         the `BinaryPolynomial` object after a history of mutations (`Red.objectAfter`)
          op: set@<term>@<bias> | iadd@<term>@<bias> | del@<term> | popitem | scale@<c>@<ignored term|term… or -> |
-             norm@<lo>,<hi>@<lo>,<hi>@<ignored or ->         (term: lab&lab&…, empty for the constant)
-      → ok <terms> | err KeyError | err ZeroDivisionError
+             norm@<lo>,<hi>@<lo>,<hi>@<ignored or -> | relabel@old>new,old>new…      (term: lab&lab&…, empty for the constant)
+      → ok <terms> | err KeyError | err ZeroDivisionError | err ValueError | conflict-not-modelled
 -/
 
 def parseTerm (s : String) : Option (List Label × Rat) :=
@@ -122,6 +122,12 @@ def parsePolyOp (s : String) : Option PolyOp :=
   | ["norm", l, p, ig] => do
     let l ← parseRatPair l; let p ← parseRatPair p; let ig ← parseIgn ig
     pure (.normalize { linLo := l.1, linHi := l.2, polyLo := p.1, polyHi := p.2 } ig)
+  | ["relabel", m] => do
+    let ps ← (m.splitOn ",").mapM fun e =>
+      match e.splitOn ">" with
+      | [a, b] => do let a ← parseLabel? a; let b ← parseLabel? b; pure (a, b)
+      | _ => none
+    pure (.relabel ps)
   | _ => none
 def parsePolyOps (s : String) : Option (List PolyOp) := if s = "-" then some [] else (s.splitOn "!").mapM parsePolyOp
 
@@ -134,6 +140,8 @@ def answer (line : String) : String :=
       | .ok s => "ok " ++ showPoly s
       | .error .keyError => "err KeyError"
       | .error .zeroDivision => "err ZeroDivisionError"
+      | .error .valueError => "err ValueError"
+      | .error .conflictNotModelled => "conflict-not-modelled"
     | _, _, _ => "bad-op"
   | ["norm", vt, terms] =>
     match vtOf? vt, parseRaw terms with
